@@ -344,16 +344,30 @@ fn argument_separator(input: &[u8]) -> ParseResult<()> {
     Ok((input, ()))
 }
 
+/// Tries the next alternative unless the previous one ran out of input.
+///
+/// An alternative that is incomplete has recognized the beginning of its data
+/// type; its verdict must not be replaced by the failure of a later alternative.
+fn or_next<'a, T>(
+    result: ParseResult<'a, T>, next: impl FnOnce() -> ParseResult<'a, T>,
+) -> ParseResult<'a, T> {
+    match result {
+        Err(ParseError::Incomplete) => result,
+        Err(_) => next(),
+        ok => ok,
+    }
+}
+
 /// Parses an argument value.
 fn argument(input: &[u8]) -> ParseResult<Value<'_>> {
-    characters(input)
-        .or_else(|_| decimal_numeric_program_data(input))
-        .or_else(|_| hexadecimal_numeric_program_data(input))
-        .or_else(|_| binary_numeric_program_data(input))
-        .or_else(|_| octal_numeric_program_data(input))
-        .or_else(|_| single_quoted_string_program_data(input))
-        .or_else(|_| double_quoted_string_program_data(input))
-        .or_else(|_| arbitrary_program_data(input))
+    let result = characters(input);
+    let result = or_next(result, || decimal_numeric_program_data(input));
+    let result = or_next(result, || hexadecimal_numeric_program_data(input));
+    let result = or_next(result, || binary_numeric_program_data(input));
+    let result = or_next(result, || octal_numeric_program_data(input));
+    let result = or_next(result, || single_quoted_string_program_data(input));
+    let result = or_next(result, || double_quoted_string_program_data(input));
+    or_next(result, || arbitrary_program_data(input))
 }
 
 /// Parses multiple arguments separated by commas.
